@@ -1,7 +1,10 @@
 import json
 C=[]
-def add(id, prop, file, old, new, expect, quick=True):
-    C.append(dict(id=id, property=prop, file=file, old=old, new=new, expect=expect, quick=quick))
+def add(id, prop, file, old, new, expect, quick=True, old2=None, new2=None):
+    d=dict(id=id, property=prop, file=file, old=old, new=new, expect=expect, quick=quick)
+    if old2 is not None:
+        d["old2"]=old2; d["new2"]=new2
+    C.append(d)
 # C04
 add("cleared-forgets-data","C04","result.go","\tr.data = nil\n","","POOL-CLEARED:cleared:Result.data")
 add("ctor-forgets-field","C04","validator.go","\tn.ExclusiveMinimum = exclusiveMinimum\n","","POOL-CTOR:newNumberValidator:numberValidator.ExclusiveMinimum")
@@ -58,6 +61,23 @@ add("visited-set-shared-by-definitions","C09","default_validator.go","\t\t\td.re
 add("format-exempts-from-type","C01","type.go","\tif len(t.Type) == 0 && t.Format != \"\" && (kind == reflect.String || kind == reflect.Slice) {","\tif t.Format != \"\" && (kind == reflect.String || kind == reflect.Slice) {","TYPE-TABLE:typeValidator:draft4", quick=False)
 add("required-skipped-for-empty-object","C01","object_validator.go","\tif len(o.Required) == 0 {\n\t\treturn\n\t}\n","\tif len(o.Required) == 0 || len(val) == 0 {\n\t\treturn\n\t}\n","ROUTING:required:missing-is-an-error", quick=False)
 add("additional-items-without-tuple","C01","slice_validator.go","\t\tif s.AdditionalItems.Schema != nil && itemsSize > 0 {\n","\t\tif s.AdditionalItems.Schema != nil {\n","ROUTING:slice:additionalItems:only-after-tuple", quick=False)
+
+# round 5
+add("clone-through-gob","C09","spec.go","\tb, err := json.Marshal(src)\n\tif err != nil {\n\t\treturn spec.Schema{}, err\n\t}\n\n\tvar dst spec.Schema\n\tif err := json.Unmarshal(b, &dst); err != nil {","\tvar b bytes.Buffer\n\tif err := gob.NewEncoder(&b).Encode(src); err != nil {\n\t\treturn spec.Schema{}, err\n\t}\n\n\tvar dst spec.Schema\n\tif err := gob.NewDecoder(&b).Decode(&dst); err != nil {","CLONE-FAITHFUL:deepCloneSchema:gob", quick=False, old2='import (\n\t"encoding/json"\n', new2='import (\n\t"bytes"\n\t"encoding/gob"\n\t"encoding/json"\n')
+add("walkers-share-spec-options","C09","spec.go","\tdf := &defaultValidator{SpecValidator: s, schemaOptions: &valueOptions}","\tdf := &defaultValidator{SpecValidator: s, schemaOptions: s.schemaOptions}","VALUE-OPTIONS:(*SpecValidator).Validate:defaultValidator.options")
+add("probe-without-root","C09","spec.go","\treturn spec.ExpandSchema(&probe, s.spec.Spec(), nil) == nil","\treturn spec.ExpandSchema(&probe, nil, nil) == nil","EXPAND-ROOT:(*SpecValidator).canValidateAgainst", quick=False)
+add("defaults-replaced-wholesale","C03","options.go","\tdefaultOpts.ContinueOnErrors = c\n","\tdefaultOpts = Opts{ContinueOnErrors: c}\n","DEFAULTS-FIELDWISE:global:defaultOpts", quick=False)
+add("defaults-replaced-wholesale","C10","options.go","\tdefaultOpts.ContinueOnErrors = c\n","\tdefaultOpts = Opts{ContinueOnErrors: c}\n","DEFAULTS-FIELDWISE:global:defaultOpts", quick=False)
+add("parameters-of-raw-document","C03","spec.go","\tfor method, pi := range s.expandedAnalyzer().Operations() {\n\t\tmethodPaths","\tfor method, pi := range s.analyzer.Operations() {\n\t\tmethodPaths","RAW-ANALYZER:(*SpecValidator).validateParameters", quick=False)
+add("root-never-stored","C06","schema_props.go","\ts.Root = root\n","","FIELD-FED:schemaPropsValidator.Root", quick=False)
+add("pointer-error-conditional","C07","helpers.go","\tif err != nil {\n\t\tres.AddErrors(cannotResolveRefMsg(fromPath, ref, err))","\tif err != nil && ref != \"\" {\n\t\tres.AddErrors(cannotResolveRefMsg(fromPath, ref, err))","NIL:", quick=False)
+add("uint64-falls-to-float","C13","values.go","\tcase reflect.Uint, reflect.Uint8, reflect.Uint16, reflect.Uint32, reflect.Uint64:\n\t\tvalue := valueHelp.asUint64(val)\n\t\tif !isExactUint64(multipleOf) {","\tcase reflect.Uint, reflect.Uint8, reflect.Uint16, reflect.Uint32:\n\t\tvalue := valueHelp.asUint64(val)\n\t\tif !isExactUint64(multipleOf) {","NARROW:native-dispatch:MultipleOfNativeType", quick=False)
+add("literal-pattern-fast-path","C15","values.go","func Pattern(path, in, data, pattern string) *errors.Validation {\n","func Pattern(path, in, data, pattern string) *errors.Validation {\n\tif !strings.ContainsAny(pattern, `\\.+*?()|[]^$`) {\n\t\tif !strings.Contains(data, pattern) {\n\t\t\treturn errors.FailedPattern(path, in, pattern, data)\n\t\t}\n\t\treturn nil\n\t}\n","PURE:Pattern:search")
+add("prune-stops-at-null-element","C19","post/prune.go","\t\tfor _, item := range obj {\n\t\t\tprune(item, result)","\t\tfor _, item := range obj {\n\t\t\tif item == nil {\n\t\t\t\treturn\n\t\t\t}\n\t\t\tprune(item, result)","POST:Prune:recursion", quick=False)
+add("defaults-stop-after-first-member","C18","post/defaulter.go","\t\t\t\t\tbreak LookForDefaultingScheme\n","\t\t\t\t\treturn\n","POST:ApplyDefaults:all-members", quick=False)
+add("dedupe-skips-typed-errors","C20","result.go","\t\t\tfor _, isReported := range r.Errors {\n\t\t\t\tif e.Error() == isReported.Error() {","\t\t\tfor _, isReported := range r.Errors {\n\t\t\t\tif _, typed := isReported.(interface{ Code() int32 }); typed {\n\t\t\t\t\tcontinue\n\t\t\t\t}\n\t\t\t\tif e.Error() == isReported.Error() {","RESULT-ALGEBRA:(*Result).AddErrors:dedupe-every-element", quick=False)
+add("additional-item-built-with-array-path","C17","slice_validator.go",'validator := newSchemaValidator(s.AdditionalItems.Schema, s.Root, fmt.Sprintf("%s.%d", s.Path, i), s.KnownFormats, s.Options)\n','validator := newSchemaValidator(s.AdditionalItems.Schema, s.Root, s.Path, s.KnownFormats, s.Options)\n\t\t\t\tvalidator.SetPath(fmt.Sprintf("%s.%d", s.Path, i))\n',"K-CONSISTENT:(*schemaSliceValidator).Validate:member validated against s.AdditionalItems.Schema:ctor-path", quick=False)
+add("empty-result-guard-removed","C01","pools.go","\tif s == emptyResult {\n\t\treturn\n\t}\n","","POOL-API:empty-guard", quick=False)
 add("additional-properties-schema-skipped","C01","object_validator.go","\t\tif o.AdditionalProperties == nil || o.AdditionalProperties.Schema == nil {\n","\t\tif o.AdditionalProperties == nil || o.AdditionalProperties.Schema == nil || len(o.PatternProperties) > 0 {\n","ROUTING:object:additionalProperties:schema", quick=False)
 add("keyword-dropped","C01","schema.go","\t\ts.Schema.UniqueItems,\n","\t\tfalse,\n","KEYWORDS:SchemaValidator:UniqueItems")
 json.dump(C, open('/verif/tables/controls.json','w'), indent=1)
